@@ -765,9 +765,11 @@ func allowLocalhostClient(state []byte) []byte {
 // valRec: what the staking end blocker's validator part is read from — the validator RECORDS (status, tokens,
 // unbonding ids), not the pool balance or the unbonding-id index that the correspondence compares.
 type valRec struct {
-	bonded bool
-	tokens sdkmath.Int
-	ids    []uint64
+	bonded    bool
+	unbonding bool
+	present   bool
+	tokens    sdkmath.Int
+	ids       []uint64
 }
 
 func (h *Hist) valRecs() map[int64]valRec {
@@ -775,7 +777,7 @@ func (h *Hist) valRecs() map[int64]valRec {
 	lib.Must(err)
 	m := map[int64]valRec{}
 	for _, v := range vals {
-		m[h.ids.Bech(v.OperatorAddress)] = valRec{bonded: v.IsBonded(), tokens: v.Tokens, ids: append([]uint64{}, v.UnbondingIds...)}
+		m[h.ids.Bech(v.OperatorAddress)] = valRec{bonded: v.IsBonded(), unbonding: v.IsUnbonding(), present: true, tokens: v.Tokens, ids: append([]uint64{}, v.UnbondingIds...)}
 	}
 	return m
 }
@@ -808,9 +810,12 @@ func vsideOf(pre, post map[int64]valRec) (string, bool) {
 		}
 	}
 	for id, p := range pre {
-		q := post[id] // a validator removed in this block has no ids left
-		for _, u := range p.ids {
-			if !has(q.ids, u) {
+		// UnbondAllMatureValidators: a validator whose own unbonding period ends (unbonding -> unbonded, or removed when it
+		// has no shares left) has all its unbonding ids deleted from the index; the ids are NOT cleared in the validator
+		// record that stays (the SDK resets them on a copy it does not store), so this is read off the status change
+		q := post[id]
+		if p.unbonding && (!q.present || !(q.unbonding || q.bonded)) {
+			for _, u := range p.ids {
 				dels = append(dels, z(int64(u)))
 			}
 		}
